@@ -18,7 +18,7 @@ import vlib
 LIBS = ("mptcore", "mptplot")
 DRV_ENV = {"ASAN_OPTIONS": vlib.ASAN_ENV + ":symbolize=0"}
 CFG = {
-    "quick":    dict(mc="MC_ObjSet.cfg", gen="Gen_ObjSet.cfg", genx="Gen_ObjSet_x.cfg", mcv="MC_ObjVararg.cfg", genv="Gen_ObjVararg.cfg", nhist=40, steps=14),
+    "quick":    dict(mc="MC_ObjSet.cfg", gen="Gen_ObjSet.cfg", genx="Gen_ObjSet_x.cfg", mcv="MC_ObjVararg.cfg", genv="Gen_ObjVararg.cfg", nhist=30, steps=14),
     "thorough": dict(mc="MC_ObjSet_t.cfg", gen="Gen_ObjSet_t.cfg", genx="Gen_ObjSet_xt.cfg", mcv="MC_ObjVararg_t.cfg", genv="Gen_ObjVararg_t.cfg", nhist=300, steps=24),
 }
 
@@ -260,43 +260,48 @@ def replay_dump(ck, exe, dump, tag, per_sig, nts):
 def run_part(ck, tier):
     t0 = time.time()
     cfg = CFG[tier]
-    exe = build()
+    exe, exe_cxx = build(), build_cxx()
     per_sig, nt, nts = {}, set(), []
     wdir = vlib.ensure(os.path.join(vlib.WORK, "C20"))
     dump = os.path.join(wdir, "x21-gen-%d.out" % os.getpid())
     dumpv = os.path.join(wdir, "x21-genv-%d.out" % os.getpid())
+    dumpx = os.path.join(wdir, "x21-genx-%d.out" % os.getpid())
     hist = gen_histories(ck, cfg["nhist"], cfg["steps"])
     histv = gen_histories_v(ck, cfg["nhist"], cfg["steps"])
+    histx = gen_histories_x(ck, cfg["nhist"] // 2, cfg["steps"])
 
     def job_mc(mod, c):
         if os.environ.get("X21_DEV_SKIP_MC"):        # development aid only (code mutations do not touch the model)
             return None
         return c, vlib.tlc(mod, c, workers=max(2, vlib.NCPU // 4), tag=mod)
 
-    def job_gen(mod, c, path):
+    def job_gen(mod, c, path, exe):
         g = vlib.tlc_to_file(mod, c, path, workers=4 if tier == "quick" else 6, timeout=1500)
         if g.error:
             raise vlib.MachineryError("X21 behaviour export failed (%s): %s" % (mod, g.error))
         if tier != "quick":
-            return mod, g, None, path, 0
+            return mod, g, None, path, 0, exe
         with open(path, errors="replace") as fh:
             behs = vlib.parse_behaviours(fh.read())
         os.unlink(path)
         recs, _ = vlib.run_driver(exe, script(behs), env=DRV_ENV, timeout=1200)
-        return mod, g, behs, path, recs
+        return mod, g, behs, path, recs, exe
 
-    with concurrent.futures.ThreadPoolExecutor(max_workers=4) as ex:
+    with concurrent.futures.ThreadPoolExecutor(max_workers=5) as ex:
         fms = [ex.submit(job_mc, "MC_ObjSet", cfg["mc"]), ex.submit(job_mc, "MC_ObjVararg", cfg["mcv"])]
-        fgs = [ex.submit(job_gen, "Gen_ObjSet", cfg["gen"], dump), ex.submit(job_gen, "Gen_ObjVararg", cfg["genv"], dumpv)]
+        fgs = [ex.submit(job_gen, "Gen_ObjSet", cfg["gen"], dump, exe), ex.submit(job_gen, "Gen_ObjVararg", cfg["genv"], dumpv, exe),
+               ex.submit(job_gen, "Gen_ObjSetX", cfg["genx"], dumpx, exe_cxx)]
         # binding B: recorded runs judged by TLC (beside the exports)
         recs, _ = vlib.run_driver(exe, script(hist), env=DRV_ENV, timeout=900)
         recsv, _ = vlib.run_driver(exe, script(histv), env=DRV_ENV, timeout=900)
+        recsx, _ = vlib.run_driver(exe_cxx, script(histx), env=DRV_ENV, timeout=900)
         rej = trace_part(ck, "Trace_ObjSet", hist, recs, "Trace_ObjSet", per_sig)
         rej += trace_part(ck, "Trace_ObjVararg", histv, recsv, "Trace_ObjVararg", per_sig)
+        rej += trace_part(ck, "Trace_ObjSet", histx, recsx, "Trace_ObjSet_cxx", per_sig)
         gens = [f.result() for f in fgs]
         nbeh = nmm = 0
         sample = None
-        for mod, g, behs, path, brecs in gens:
+        for mod, g, behs, path, brecs, gexe in gens:
             ck.cov["transitions"] += g.generated
             if behs is not None:
                 mms = vlib.compare(behs, brecs, match)
@@ -310,8 +315,8 @@ def run_part(ck, tier):
                 sample = sample or (behs[len(behs) // 2] if behs else None)
         mc = [f.result() for f in fms if f.result() is not None]
     if tier != "quick":          # streamed, parallel replay of the big dumps (process pool: from the main thread)
-        for mod, g, behs, path, brecs in gens:
-            n, m = replay_dump(ck, exe, path, mod, per_sig, nts)
+        for mod, g, behs, path, brecs, gexe in gens:
+            n, m = replay_dump(ck, gexe, path, mod, per_sig, nts)
             os.unlink(path)
             nbeh += n
             nmm += m
@@ -321,7 +326,7 @@ def run_part(ck, tier):
     ck.cov["distinct_nontrivial"] += len(nt) + sum(nts)
     ck.notes["x21_replayed_behaviours"] = nbeh
     ck.notes["x21_replay_mismatches"] = nmm
-    ck.notes["x21_seeded_histories"] = len(hist) + len(histv)
+    ck.notes["x21_seeded_histories"] = len(hist) + len(histv) + len(histx)
     ck.notes["x21_seeded_histories_rejected"] = rej
     ck.notes["x21_mismatch_signatures"] = per_sig
     ck.notes["x21_rule"] = ("X21 A: one behaviour per transition of the TLC state graphs of ObjSet (layout objects: a preparation of the two "
